@@ -4,7 +4,9 @@ from .pcommon import *
 def run_check(tier, seed, replay=None):
     n, m = (400, 10) if tier == "quick" else (6000, 25)
     return parser_family_check("C03", tier, seed, replay, CODE_CONTENT | CODE_PANIC,
-        suites=[("conforming", "c02", [], None),   # every opcode / enumerant / mask bit must be ACCEPTED and delivered intact
+        models=[("parser", "MC_Parser.tla", "MC_Parser_%s.cfg" % tier)],
+        suites=[("model", "words", [], "parser"),      # every stream of the bounded model, on the real parser
+                ("conforming", "c02", [], None),   # every opcode / enumerant / mask bit must be ACCEPTED and delivered intact
                 ("mut", "c03", ["--n", str(n), "--mutants", str(m)], None),
                 ("specop", "specop", [], None)],
         required_tags=["wellformed", "truncate", "wordcount", "opcode", "substitute", "delete-word", "insert-word", "header",
